@@ -6,6 +6,7 @@
 #include <stddef.h>
 #include <stdint.h>
 #include <algorithm>
+#include <cmath>
 #include <memory>
 #include <vector>
 
@@ -120,6 +121,31 @@ template <class T>
 size_t BucketBinarySearch(T value, const std::vector<double> &boundaries)
 {
   auto low = std::lower_bound(boundaries.begin(), boundaries.end(), value);
+  return low - boundaries.begin();
+}
+
+/**
+ * Exact `boundary < value` for an integer value. An int64_t beyond 2^53 is not always representable as a
+ * double, so the implicit conversion would compare the rounded value instead of the recorded one.
+ */
+inline bool BucketBoundaryLessThan(double boundary, int64_t value) noexcept
+{
+  if (!(boundary < 9223372036854775808.0))  // boundary >= 2^63 (or NaN): not below any int64_t
+  {
+    return false;
+  }
+  if (boundary < -9223372036854775808.0)  // boundary < -2^63: below every int64_t
+  {
+    return true;
+  }
+  // floor(boundary) now fits an int64_t, and boundary < value <=> floor(boundary) < value
+  return static_cast<int64_t>(std::floor(boundary)) < value;
+}
+
+inline size_t BucketBinarySearch(int64_t value, const std::vector<double> &boundaries)
+{
+  auto low =
+      std::lower_bound(boundaries.begin(), boundaries.end(), value, BucketBoundaryLessThan);
   return low - boundaries.begin();
 }
 
